@@ -371,6 +371,21 @@ pub fn c12_check_two(a: &Locale, b: &Locale) -> Vec<Fail> {
 }
 
 pub fn c12_replay(v: &Value) -> Vec<Fail> {
+    #[cfg(feature = "likely")]
+    if let (Some(k), Some(route)) = (v["cldr_key"].as_str(), v["route_a"].as_str()) {
+        if let Ok(mut x) = k.parse::<unic_langid_impl::LanguageIdentifier>() {
+            if route.starts_with("maximize") {
+                x.maximize();
+            } else {
+                x.minimize();
+            }
+            let a = Locale::from(x);
+            return match a.to_string().parse::<Locale>() {
+                Ok(twin) => c12_check_two(&a, &twin),
+                Err(_) => vec![fail("bad-replay", "result does not re-parse")],
+            };
+        }
+    }
     let (Some(a), Some(b)) = (v["a"].as_str(), v["b"].as_str()) else {
         return vec![fail("bad-replay", "need a and b (canonical strings); route-specific witnesses are replayed by re-running with the recorded seed")];
     };
@@ -472,6 +487,40 @@ pub fn run_c12(ctx: &mut Ctx) {
             }
         }
         ctx.count_n("sorted-pool-checked", n as u64);
+    }
+    // (d) values only maximize / minimize can produce (their subtags come out of the compiled tables):
+    // each against its own re-parsed twin and against its neighbour in CLDR key order
+    #[cfg(feature = "likely")]
+    if let Ok(lk) = crate::likely::Likely::load() {
+        let mut prev: Option<Locale> = None;
+        for (i, (k, _)) in lk.entries.iter().enumerate() {
+            if i % ctx.nshards != ctx.shard {
+                continue;
+            }
+            let Ok(li) = k.parse::<unic_langid_impl::LanguageIdentifier>() else { continue };
+            for which in 0..2 {
+                let mut x = li.clone();
+                if which == 0 {
+                    x.maximize();
+                } else {
+                    x.minimize();
+                }
+                let a = Locale::from(x);
+                let Ok(twin) = a.to_string().parse::<Locale>() else { continue };
+                mon::begin_case(k.as_bytes());
+                ctx.evals += 2;
+                ctx.count("pairs:likely-subtags-result vs re-parsed twin / neighbour");
+                let mut fails = c12_check_two(&a, &twin);
+                if let Some(p) = &prev {
+                    fails.extend(c12_check_two(&a, p));
+                }
+                for f in fails {
+                    viol(ctx, &f.clause, json!({"a": a.to_string(), "b": twin.to_string(), "route_a": if which == 0 { "maximize(cldr key)" } else { "minimize(cldr key)" }, "route_b": "parse", "cldr_key": k}), f.detail);
+                }
+                prev = Some(a);
+            }
+        }
+        mon::idle();
     }
     // (c) comparison with &str
     let mut rs = Rng::new(mix(&[ctx.seed, ctx.shard as u64, 0xC12A]));
